@@ -264,5 +264,5 @@ func TestC03(t *testing.T) {
 		return
 	}
 	r.CheckKnown(parts)
-	r.Rapid("flow", r.N(16000, 200000), c03Prop)
+	r.Rapid("flow", r.N(16000, 500000), c03Prop)
 }
